@@ -23,7 +23,7 @@ from .. import oracles as O
 SHARDS = {'quick': 4, 'thorough': 16, 'quick_timeout': 900, 'thorough_timeout': 5400}
 
 
-def make_fit_file(ctx, rng, d, n_rec, with_fluxes, n_models=None, many=False):
+def make_fit_file(ctx, rng, d, n_rec, with_fluxes, n_models=None, many=False, equal_sizes=False):
     """run the real fit() on a small 2-D or 3-D package; returns (path, kwargs used)"""
     from sedfitter import fit
     n_models = n_models or int(rng.integers(2, 9))
@@ -48,7 +48,8 @@ def make_fit_file(ctx, rng, d, n_rec, with_fluxes, n_models=None, many=False):
         for i in range(n_rec):
             valid = [1] * nb
             flux = 10 ** rng.uniform(-1, 2, nb)
-            f.write(gen.source_line('src_%d_%s' % (i, 'x' * int(rng.integers(0, 12))), valid, flux, flux * 0.1,
+            sname = ('src_%03d' % i) if equal_sizes else 'src_%d_%s' % (i, 'x' * int(rng.integers(0, 12)))     # fixed-width names: records of equal size
+            f.write(gen.source_line(sname, valid, flux, flux * 0.1,
                                     rng.uniform(0, 360), rng.uniform(-90, 90)) + '\n')
     out = os.path.join(d, 'fit.out')
     sel = [('N', int(rng.integers(1, n_models + 1))), ('A', 0), ('N', 1)][int(rng.integers(3))] if not many else ('N', 2)
@@ -191,6 +192,12 @@ def judge(ctx, got, exc, full, n_complete, wit, keyp):
 def run(ctx):
     rng = ctx.rng
     install(ctx)
+    try:          # a reader that takes a length from a damaged file may ask for gigabytes: let that fail as MemoryError instead of
+        import resource      # having the shard killed by the kernel (an error is an accepted outcome of reading a cut file)
+        soft, hard = resource.getrlimit(resource.RLIMIT_AS)
+        resource.setrlimit(resource.RLIMIT_AS, (12 << 30, hard))
+    except Exception:
+        pass
     ctx.rule = ('files written by the real fit() holding 1..4 records of varying size, with and without stored predicted fluxes; every truncation offset '
                 '0..len-1 (exhaustive, partitioned over shards); writer-side faults: ENOSPC after N bytes (N over a stride), SIGKILL at random times, one '
                 'strace of the output fd. a case = one truncated read; non-trivial = offset beyond the metadata')
@@ -200,7 +207,7 @@ def run(ctx):
                'the end offset of every record is observed at the writing boundary (position of the output handle after each FitInfoFile.write), so nothing is assumed about the on-disk layout', 'a clean end after fewer records than were complete is an exact prefix and is accepted')
     ctx.require_events('truncated-read', 'outcome:exception', 'outcome:clean-end', 'enospc-run', 'enospc:prefix-on-disk', 'FitInfoFile.write:post')
     ctx.require_regimes('with-fluxes', 'without-fluxes', 'records=1', 'records>=3', 'cut:before-first-record-complete', 'cut:in-later-record', 'cut:on-boundary',
-                        'records:large', 'enospc:over-an-existing-longer-file', 'enospc:over-an-earlier-run-of-the-same-job')
+                        'records:large', 'records:equal-size', 'enospc:over-an-existing-longer-file', 'enospc:over-an-earlier-run-of-the-same-job')
     n_files = 8 if ctx.quick else 64
     prev_blob = None
     for ifile in range(n_files):
@@ -214,7 +221,8 @@ def run(ctx):
         if big:
             ctx.regime('records:large')
         try:
-            (path, kw), rec_ends = observed_record_ends(make_fit_file, ctx, frng, d, n_rec, with_fluxes, n_models=nmod, many=False)
+            eq = ifile % 8 in (2, 3, 7)
+            (path, kw), rec_ends = observed_record_ends(make_fit_file, ctx, frng, d, n_rec, with_fluxes, n_models=nmod, many=False, equal_sizes=eq)
         except Exception as exc:
             ctx.violation('fit-raised', 'fit() raised while producing the file: %r' % (exc,), {'n_rec': n_rec})
             continue
@@ -223,6 +231,8 @@ def run(ctx):
         if len(full) != n_rec:
             ctx.violation('complete-file:records', 'the complete file does not read back one record per source', {'n_rec': n_rec, 'read': len(full)})
             continue
+        if len(rec_ends) == n_rec and n_rec >= 2 and all(e is not None for e in rec_ends) and len(set(np.diff([rec_ends[0]] + rec_ends[1:]))) == 1:
+            ctx.regime('records:equal-size')
         if len(rec_ends) != n_rec or any(e is None for e in rec_ends) or rec_ends != sorted(rec_ends) or rec_ends[-1] != size:
             ctx.inconclusive('write-side observation failed: record ends %r for %d records, file size %d' % (rec_ends, n_rec, size))
             continue
